@@ -62,6 +62,8 @@ def expectations : List Expect := [
   -- phenotype of the baby genome built for the recurrence test of mutateAddLink: Genesis runs on the baby only
   -- (mutateAddLink calls g.Genesis when g.Phenotype == nil; parents are never passed to Genesis in this path)
   ⟨"(*genetics.Genome).Genesis", "genetics.Genome.Phenotype", .wr, .fresh⟩,
+  -- repair 585232e: mutateAddLink drops that cached network again after inserting the gene (receiver g = newGenome)
+  ⟨"(*genetics.Genome).mutateAddLink", "genetics.Genome.Phenotype", .wr, .fresh⟩,
   ⟨"(*genetics.Genome).Genesis", "network.NNode.Incoming", .wr, .fresh⟩,
   ⟨"(*genetics.Genome).Genesis", "network.NNode.Outgoing", .wr, .fresh⟩,
   ⟨"(*genetics.Genome).Genesis", "network.NNode.PhenotypeAnalogue", .wr, .fresh⟩,
@@ -96,7 +98,7 @@ def externOk : List String := [
   -- log.Logger serialises Output with its own mutex
   "(*log.Logger).Output",
   -- the sanctioned primitives themselves
-  "sync/atomic.AddInt32", "sync/atomic.AddInt64", "(*sync.WaitGroup).Done",
+  "sync/atomic.AddInt32", "sync/atomic.AddInt64", "(*sync.WaitGroup).Done", "(*sync.WaitGroup).Add",
   -- context.Context is safe for simultaneous use by multiple goroutines (package documentation)
   "iface:context.Context.Done", "iface:context.Context.Err", "iface:context.Context.Value",
   -- pure functions of their arguments
